@@ -123,6 +123,11 @@ def main(tier):
                     for c in kws:
                         inputs.append(('kw:%s:%s:%s %s' % (cn, 'nl' if end else 'eof', a, c), (pre + a + ' ' + c + end).encode(), False, False))
     nkw = len(inputs) - nkw0
+    # macros that refer to themselves: plain and parameterised, direct and through a second macro, used once and twice
+    for nm, text in [('plain', 'macro m == m;\na := m;\n'), ('param', 'macro f(x) == f(x);\na := f(1);\n'), ('param2', 'macro f(x) == g(x);\nmacro g(x) == f(x);\na := f(1);\n'),
+                     ('param-grow', 'macro f(x) == f(x, x);\na := f(1);\n'), ('param-twice', 'macro f(x) == f(x) + f(x);\na := f(1);\nb := f(2);\n'),
+                     ('arrow', 'f(x) ==> f(x);\na := f(1);\n'), ('nested', 'macro f(x) == { macro g(y) == f(y); g(x) };\na := f(1);\n')]:
+        inputs.append(('macro-circular-' + nm, text.encode(), False, False))
     # structural extremes
     for d in (10, 255, 256, 257, 2000) + ((10000,) if tier == 'thorough' else ()):
         inputs.append(('nest-paren-%d' % d, ('x := ' + '(' * d + '1' + ')' * d + ';\n').encode(), False, False))
